@@ -22,8 +22,11 @@ type nameWorld struct {
 	addFn *types.Func
 }
 
-func newNameWorld(prog *load.Program) (*nameWorld, error) {
-	w, err := newRegWorld(prog, nil, "")
+func newNameWorld(prog *load.Program) (*nameWorld, error) { return newNameWorldFor(prog, "") }
+
+// newNameWorldFor: a name world whose registry was built for the given -pkg value.
+func newNameWorldFor(prog *load.Program, moqPkg string) (*nameWorld, error) {
+	w, err := newRegWorld(prog, nil, moqPkg)
 	if err != nil {
 		return nil, err
 	}
